@@ -42,6 +42,7 @@ def dispatch (line : String) : String :=
   | "path" :: args => Path.driver args
   | "idtok" :: args => Id.driver args
   | "agent" :: args => Agent.driver args
+  | "agentcodec" :: args => Agent.codecDriver args
   | "ipp" :: args => Ipp.driver args
   | "seg" :: "http" :: args => Relay.segHttpDriver args
   | "dgram" :: args => Relay.dgramDriver args
